@@ -46,6 +46,13 @@ C15OK(rec) ==
        /\ rec.out = "ok" /\ ~rec.post.bad
        /\ ClearContract(Members(ToSt(rec.pre)), rec.ev)
        /\ ToSt(rec.post) = Empty
+ModelOps(rec) == LET M == Members(ToSt(rec.pre)) IN
+    {[op |-> "push", n |-> n] : n \in Nodes \ M} \cup {[op |-> "pop"], [op |-> "clear"]}
+\* In a closure the records of one state are contiguous (field g on the first of them = how many).  Every transition
+\* the L0 machine can take from that state (ModelOps) must be among the operations the driver applied to the real
+\* code there (the driver applies read-only probes on top).  Recs[1] is the trace header (the scope).
+Applied(k, o) == \E j \in k..(k + Recs[k].g - 1) : Recs[j].op = o.op /\ \A f \in DOMAIN o : Recs[j][f] = o[f]
+OpsOK(k) == LET rec == Recs[k] IN rec.pre.bad \/ \A o \in ModelOps(rec) : Applied(k, o)
 VARIABLE i
 Judge(rec) ==
     /\ (IF Level # 2 \/ C15OK(rec) THEN TRUE ELSE PrintT(<<"L2FAIL", "C15", rec.id>>))
@@ -53,6 +60,7 @@ Judge(rec) ==
     /\ (IF Level # 1 \/ StepOK(rec) THEN TRUE ELSE PrintT(<<"L1DRIFT", "heap", rec.id>>))
 TInit == i = 1
 TNext == i < Len(Recs) /\ i' = i + 1 /\ Judge(Recs[i + 1])
+         /\ (IF Level # 1 \/ Recs[i + 1].g = 0 \/ OpsOK(i + 1) THEN TRUE ELSE PrintT(<<"OPSDIFF", "heap", Recs[i + 1].id>>))
 TSpec == TInit /\ [][TNext]_i
 Done == i = Len(Recs) => PrintT(<<"TRACE-END", i>>)
 =============================================================================
